@@ -114,6 +114,13 @@ def main():
             thresholds=[0.3, 0.5, 0.8], allow_empty=[True, False])))
     ck.e2('subset-stub', h_core.make_subset(dict(measure='JACCARD', nl=1, nr=2, k=2, kmin=0, kernel='contract',
                                                  allow_empty=[True])))
+    # EDIT_DISTANCE: SizeFilter decides on the q-gram counts alone; PositionFilter keeps a subset of SizeFilter
+    from harness import h_ed
+    ck.e2('ed-size-pair', h_ed.make(dict(entry='filter_pair', filter='SizeFilter', lens=[0, 1, 2, 3], q=[2],
+                                         padding=[True, False], taus=[0, 1, 2], props=P)))
+    ck.e2('ed-position-subset', h_ed.make(dict(entry='filter_split', filter='PositionFilter', nl=1, nr=1,
+                                               lens_l=[1], lens_r=[4], q=[2], padding=[True], taus=[2],
+                                               size_subset=True, props=P)), expect_nontrivial=False)
     ck.finish()
 
 
